@@ -200,6 +200,11 @@ Proof. apply forallb_app. Qed.
 Lemma vis_app f a b : vis f (a ++ b) = vis f a ++ vis f b.
 Proof. apply flat_map_app. Qed.
 
+Lemma exec_read {S} st req (k : list Z -> prog S) kb :
+  exec (PRead st req k) kb =
+  let '(o, kb2, e) := exec (k (takeZ req kb)) (dropZ req kb) in (o, kb2, Rd st req (lenZ (takeZ req kb)) :: e).
+Proof. reflexivity. Qed.
+
 Lemma exec_suffix {S} (p : prog S) : forall kb o k e, exec p kb = (o, k, e) -> lenZ k <= lenZ kb.
 Proof.
   induction p as [s r|st req c IH|d z p IH|d p IH|n p IH|n p IH|]; intros kb o k0 e0 E; simpl in E;
